@@ -855,7 +855,7 @@ class WingSegment:
         if self.ID == parent_ID:
 
             # For mirrored wing segments, a right segment only ever attaches to a right segment and same with left
-            if self.has_mirror and side not in self.name:
+            if self.has_mirror and side != self.side:
                 return False
 
             # Determine the connection point
